@@ -121,6 +121,17 @@ SigOf(item) == IF item.kind = "fn" THEN Sig(item.params, item.ret)
 (* clone/drop/eq function.  Only declared names are gettable.               *)
 NameClasses == {"declared", "unknown", "helper"}
 
+(* ---- module placement -------------------------------------------------- *)
+(* A script is a tree of modules (pkg, pkg.a, pkg.a.c, ...).  An item may   *)
+(* carry a field `place` = [mods: the modules of the script in tree order,  *)
+(* at: the module that declares the item, fmIn: the OTHER modules that      *)
+(* declare a filtermap of their own].  The item is then retrieved by its    *)
+(* module path ("a.c.name"; a bare "name" or another module's path is an    *)
+(* unknown name).  The verdict does not depend on the placement: a          *)
+(* filtermap's unused side is () in whatever module it is declared and      *)
+(* whatever the other modules contain - SigOf never looks at `place`.       *)
+Placed(item, place) == [place |-> place] @@ item
+
 Retrievable(item, nameClass, rust) ==
   /\ nameClass = "declared"
   /\ Gate(SigOf(item), rust)
